@@ -508,6 +508,10 @@ func (s *startupCoordinator) authenticateHandshake(ctx context.Context, authFram
 			}
 			return nil
 		case *authChallengeFrame:
+			if challenger == nil {
+				// the authenticator has nothing more to say (PasswordAuthenticator never has)
+				return fmt.Errorf("unexpected authentication challenge from %q", authFrame.class)
+			}
 			resp, challenger, err = challenger.Challenge(v.data)
 			if err != nil {
 				return err
